@@ -363,10 +363,10 @@ impl Property for C17 {
     }
     fn workloads(&self, tier: Tier) -> Vec<(String, u64)> {
         vec![
-            ("expansion".into(), tier.pick(4000, 200_000)),
+            ("expansion".into(), tier.pick(12_000, 200_000)),
             ("conversion-all-dates".into(), 10),
-            ("conversion-random".into(), tier.pick(60, 3000)),
-            ("occupancy-generated".into(), tier.pick(300, 10_000)),
+            ("conversion-random".into(), tier.pick(180, 3000)),
+            ("occupancy-generated".into(), tier.pick(900, 10_000)),
             ("occupancy-real".into(), (crate::corpus::model_json_files().len() + real_project_files().len()) as u64),
         ]
     }
